@@ -7,6 +7,7 @@ import (
 	"github.com/orda-io/orda/client/pkg/iface"
 	"github.com/orda-io/orda/client/pkg/model"
 	"github.com/orda-io/orda/client/pkg/operations"
+	"github.com/orda-io/orda/client/pkg/verifhook"
 	"github.com/orda-io/orda/server/constants"
 	"github.com/orda-io/orda/server/managers"
 	"github.com/orda-io/orda/server/schema"
@@ -153,6 +154,7 @@ func (its *PushPullHandler) finalize() {
 				if err := its.sendNotification(newCtx); err == nil {
 					// continue
 				}
+				verifhook.Yield("server.postpush.beforeSnapshot")
 				if err := its.reserveUpdateSnapshot(newCtx); err != nil {
 					// continue
 				}
